@@ -256,9 +256,13 @@ def judgeReplica27 (c : Cfg) (g : G27) (now : Int) (p : Probe) (q : SlaveQ) (o :
   let ok := probeOk c p
   let lastOk := if ok then now else g.lastOkR
   let g := { g with lastOkR := lastOk }
-  let live := ok && decide (now - lastOk < c.downAfter) && !obsMasterDown c g.master
+  -- a round counts whatever the master's state (the text makes no exception for a master
+  -- outage); a round whose `show slave status` answer is bad while the master is down is
+  -- left open like an unclassified one (no restore demanded, none forbidden: C28 lists it)
+  let md := obsMasterDown c g.master
+  let live := ok && decide (now - lastOk < c.downAfter)
   let goodRound := live && (syncSpec c.sbm q == .good)
-  let maybeRound := live && (syncSpec c.sbm q == .unspecified)
+  let maybeRound := live && (syncSpec c.sbm q == .unspecified || (md && syncSpec c.sbm q == .bad))
   if !(g.fusedDown && !g.rep) then ([], g.observe now o) else
   match c.policy with
   | .none => ([], g.observe now o)
